@@ -16,17 +16,21 @@ driver for the framer interpreter (engine `flo`).  One request = one whole progr
           | X <aux framer> <nneeds> need* <ntracts> act*           aux (plain when nneeds = 0)
   act    := rec <tag> <ret> | put <dst> <v> | inc <dst> <v> | incf <dst> <src> | copy <src> <dst>
           | done <k> <framer>*k | bid <control> <k> <framer>*k
+          | mku <share> <key> <transit 0|1> | mkc <share> <key>   MarkerUpdate / MarkerChange (key = marked frame)
   need   := <neg 0|1> ( al | cd <share> <op> <v> | ci <share> <op> <share> | bo <share>
                       | el <framer> <op> <t> | re <framer> <op> <n> | dn <framer> | st <framer> <status>
-                      | xa <frame> | xl <frame> | xn <frame> <framer> )
+                      | xa <frame> | xl <frame> | xn <frame> <framer>
+                      | up <share> <key> | ch <share> <key> )       is updated / is changed
 
 Reply: records joined by `|`:
   `E f<frame> <context> <tag>`   recorder action executed
   `S <k> <framer>*`              state after tick k, per framer `i:status:active:actives:done:main:elapsed:recurred`
   `V <values>`                   store values after tick k
+  `K <share>.<key>:<share stamp>:<mark stamp>:<mark used>:<mark data> …`   the marks of the program after tick k
   `Z <framer>*`, `V …`           after the final ABORT of everything still ready
-  `G overlap=<b> reenter=<b> shared=<b> left=<b> dbl=<b> wf=<b>`  ghost flags of the run, `sharedAux` of the program
-                                 (region predicates of the known findings) and `wfCheck` (Model/FloWf.lean)
+  `G overlap=<b> reenter=<b> shared=<b> left=<b> dbl=<b> wf=<b> both=<b>`  ghost flags of the run, `sharedAux` and
+                                 `plainAndCond` of the program (region predicates of the known findings) and
+                                 `wfCheck` (Model/FloWf.lean)
   `ERR build <kind>` / `ERR run <kind>`
 -/
 namespace Ioflo.Drv.Flo
@@ -124,6 +128,8 @@ def act : Parser Act := do
   | "inc" => do let d ← nat; let v ← int; addAct (.inc d v)
   | "incf" => do let d ← nat; let s ← nat; addAct (.incFrom d s)
   | "copy" => do let s ← nat; let d ← nat; addAct (.copy s d)
+  | "mku" => do let s ← nat; let k ← nat; let tr ← nat; addAct (.markU s k (tr != 0))
+  | "mkc" => do let s ← nat; let k ← nat; addAct (.markC s k)
   | "done" => do let frs ← counted nat; pure (.done frs)
   | "bid" => do let c ← control; let frs ← counted nat; pure (.bid c frs)
   | _ => failP
@@ -143,6 +149,8 @@ def need : Parser NeedId := do
     | "xa" => do let f ← nat; pure (CNeed.auxAny f)
     | "xl" => do let f ← nat; pure (CNeed.auxAll f)
     | "xn" => do let f ← nat; let x ← nat; pure (CNeed.auxNamed f x)
+    | "up" => do let s ← nat; let k ← nat; pure (CNeed.updated s k)
+    | "ch" => do let s ← nat; let k ← nat; pure (CNeed.changed s k)
     | _ => failP)
   addNeed { neg := neg != 0, need := n }
 
@@ -256,16 +264,37 @@ def showEvents (acts : Array CAct) (evs : List Event) : List String :=
       | _ => none
     | _ => none
 
-def snapshot (tag : String) (nfr nsh : Nat) (s : St World) : List String :=
+/-- the (share, key) pairs of the marker acts of the program, sorted, without repetition -/
+def markPairs (acts : Array CAct) : List (Nat × Nat) :=
+  let raw := acts.toList.filterMap fun a =>
+    match a with
+    | .markU s k _ => some (s, k)
+    | .markC s k => some (s, k)
+    | _ => none
+  let ins (l : List (Nat × Nat)) (x : Nat × Nat) : List (Nat × Nat) :=
+    if l.contains x then l else
+      l.filter (fun y => y.1 < x.1 || (y.1 == x.1 && y.2 < x.2)) ++ [x] ++
+      l.filter (fun y => !(y.1 < x.1 || (y.1 == x.1 && y.2 < x.2)))
+  raw.foldl ins []
+
+def showOptI : Option Int → String
+  | none => "-"
+  | some x => toString x
+
+def snapshot (tag : String) (nfr nsh : Nat) (acts : Array CAct) (s : St World) : List String :=
   [tag ++ " " ++ " ".intercalate ((List.range nfr).map fun i => showFr i (s.fr i)),
-   "V " ++ ",".intercalate ((List.range nsh).map fun i => toString (s.world i))]
+   "V " ++ ",".intercalate ((List.range nsh).map fun i => toString (s.world.val i)),
+   "K " ++ " ".intercalate ((markPairs acts).map fun p =>
+      let m := s.world.mark p.1 p.2
+      toString p.1 ++ "." ++ toString p.2 ++ ":" ++ showOpt (s.world.stamp p.1) ++ ":" ++ showOpt m.stamp ++ ":" ++
+        showOpt m.used ++ ":" ++ showOptI m.data)]
 
 /-- events of `s` (newest first) in order of occurrence, then clear -/
 def flush (acts : Array CAct) (s : St World) : List String × St World :=
   (showEvents acts s.trace.reverse, { s with trace := [] })
 
 def runLoop (P : Prog) (sem : Sem World) (lo : Ops World) (acts : Array CAct) (nfr nsh period : Nat)
-    (shared wf : Bool) :
+    (shared wf both : Bool) :
     Nat → Nat → Sked → St World → List String → List String
   | 0, _, _, _, out => out ++ ["ERR run ticks"]
   | fuel + 1, k, sk, s, out =>
@@ -273,17 +302,18 @@ def runLoop (P : Prog) (sem : Sem World) (lo : Ops World) (acts : Array CAct) (n
     | .error e => out ++ ["ERR run " ++ (match e with | .depth => "depth" | .noActive => "noActive")]
     | .ok (sk', more, s') =>
       let (evs, s') := flush acts s'
-      let out := out ++ evs ++ snapshot ("S " ++ toString k) nfr nsh s'
+      let out := out ++ evs ++ snapshot ("S " ++ toString k) nfr nsh acts s'
       if sk'.ready.isEmpty || !more || fuel = 0 then
         match finalize P sem lo sk' s' with
         | .error e => out ++ ["ERR run " ++ (match e with | .depth => "depth" | .noActive => "noActive")]
         | .ok s'' =>
           let (evs, s'') := flush acts s''
-          out ++ evs ++ snapshot "Z" nfr nsh s'' ++
+          out ++ evs ++ snapshot "Z" nfr nsh acts s'' ++
             ["G overlap=" ++ (if s''.overlap then "1" else "0") ++ " reenter=" ++ (if s''.reenter then "1" else "0")
               ++ " shared=" ++ (if shared then "1" else "0") ++ " left=" ++ (if s''.left then "1" else "0")
-              ++ " dbl=" ++ (if s''.dbl then "1" else "0") ++ " wf=" ++ (if wf then "1" else "0")]
-      else runLoop P sem lo acts nfr nsh period shared wf fuel (k + 1) sk' { s' with now := s'.now + period } out
+              ++ " dbl=" ++ (if s''.dbl then "1" else "0") ++ " wf=" ++ (if wf then "1" else "0")
+              ++ " both=" ++ (if both then "1" else "0")]
+      else runLoop P sem lo acts nfr nsh period shared wf both fuel (k + 1) sk' { s' with now := s'.now + period } out
 
 def showResolveErr : Outline.ResolveErr → String
   | .badOver => "badOver" | .loop => "loop" | .badUnder => "badUnder"
@@ -296,12 +326,12 @@ def execute (r : Request) (acts : Array CAct) (needs : Array NeedC) : String :=
     let P := mkProg frames framers
     let sem := concreteSem acts.toList needs.toList (fun f => (P.frame f).auxes)
     let lo := opsAt P sem r.depth
-    let w : World := fun i => (r.shares[i]?).getD 0
+    let w : World := { val := fun i => (r.shares[i]?).getD 0 }
     let s0 := r.ready.foldl (fun s e => addReady e.1 e.2 s) (initSt w)
     let sk : Sked := { ready := r.ready.map (·.1) }
     if r.ticks = 0 then "ERR run ticks" else
     "|".intercalate (runLoop P sem lo acts framers.length r.shares.length r.period (sharedAux frames)
-      (wfCheck frames framers)
+      (wfCheck frames framers) (plainAndCond frames)
       r.ticks 0 sk s0 [])
 
 def step (_ : Unit) (line : String) : Unit × String :=
